@@ -36,8 +36,13 @@ func stopCluster(ci *clusters.ClusterInfo) {
 		return
 	}
 	rig.Recover(func() {
-		for _, fc := range clusters.VerifC11Limiter(ci).AllFlowControls() {
-			fc.Stop()
+		if lim := peekLimiter(ci); lim != nil {
+			for _, fc := range lim.AllFlowControls() {
+				fc.Stop()
+			}
+		} else {
+			// no handle on the limiter: an object without schemas makes Sync delete (and stop) every schema
+			ci.Sync(WObj{Name: ci.Cluster}.Real("0")) //nolint
 		}
 	})
 	ci.Stop()
